@@ -176,7 +176,7 @@ def seed_objstm():
     return s
 
 
-def _seed_crypt(name, V, R, bits, cfm):
+def _seed_crypt(name, V, R, bits, cfm, em=True):
     """An encrypted document whose objects are held in their *encrypted* form and whose /Encrypt dictionary is an
     ordinary indirect object (50), so that the generic faults reach every entry of it.  Opens with the empty user
     password."""
@@ -186,14 +186,17 @@ def _seed_crypt(name, V, R, bits, cfm):
 
     objs = {}
     objs[20] = W.simple_font("CryptSeed")
-    res = {b"Font": {b"F1": R_(20)}}
-    c1 = b"BT /F1 12 Tf 50 700 Td (Secret text) Tj ET"
+    res = {b"Font": {b"F1": R_(20)}, b"XObject": {b"Fm1": R_(23)}}
+    c1 = b"BT /F1 12 Tf 50 700 Td (Secret text) Tj ET q /Fm1 Do Q"
     _pages(objs, [c1], res)
+    # a stream with a /Type entry that is decoded during extraction (the metadata stream is not)
+    objs[23] = Stream(D(Type=N("XObject"), Subtype=N("Form"), BBox=[0, 0, 100, 100], Resources=D(Font=D(F1=R_(20)))),
+                      b"BT /F1 9 Tf 5 5 Td (in a form) Tj ET")
     objs[21] = D(Title=b"A title", Author=b"\xfe\xff\x00A")
     objs[22] = Stream(D(Type=N("Metadata"), Subtype=N("XML")), b"<x:xmpmeta/>")
     objs[1][b"Metadata"] = R_(22)
     id0 = b"0123456789abcdef"
-    h = CR.Handler(V, R, bits, cfm, True, CR.make_P(True, True, True), id0, "", "owner", random.Random(5))
+    h = CR.Handler(V, R, bits, cfm, em, CR.make_P(True, True, True), id0, "", "owner", random.Random(5))
     enc = {n: h.enc_value(n, 0, v) for n, v in objs.items()}
     enc[50] = h.encrypt_dict()
     return {"name": name, "objs": enc, "form": "table", "trailer": {b"Encrypt": R_(50), b"ID": [id0, id0], b"Info": R_(21)}}
@@ -207,7 +210,8 @@ def seed_crypt_rc4():
 
 
 def seed_crypt_aes():
-    return _seed_crypt("crypt-aes", 4, 4, 128, "AESV2")
+    # (/EncryptMetadata false: the metadata stream is stored in the clear)
+    return _seed_crypt("crypt-aes", 4, 4, 128, "AESV2", em=False)
 
 
 def seed_crypt_r6():
@@ -227,11 +231,13 @@ def write(seed, objs=None, trailer_extra=None):
         merged = dict(seed["trailer"])
         merged.update(trailer_extra or {})
         trailer_extra = merged
-    if trailer_extra and any(v == "SELFPOS" for v in trailer_extra.values()):
+    selfpos = {"SELFPOS": 0, "SELFPOS-1": -1}  # "SELFPOS-1": the end-of-line byte in front of the section
+    if trailer_extra and any(isinstance(v, str) and v in selfpos for v in trailer_extra.values()):
         import re
-        probe = write(seed, objs, {k: (0 if v == "SELFPOS" else v) for k, v in trailer_extra.items()})
+        isp = lambda v: isinstance(v, str) and v in selfpos  # noqa: E731
+        probe = write(seed, objs, {k: (0 if isp(v) else v) for k, v in trailer_extra.items()})
         pos = int(re.findall(rb"startxref\s+(\d+)", probe)[-1])
-        trailer_extra = {k: (pos if v == "SELFPOS" else v) for k, v in trailer_extra.items()}
+        trailer_extra = {k: (pos + selfpos[v] if isp(v) else v) for k, v in trailer_extra.items()}
     info = None
     if seed.get("info") is not None:
         objs = dict(objs)
